@@ -10,6 +10,7 @@ import (
 	"bytes"
 	"context"
 	"fmt"
+	"github.com/jech/storrent/config"
 	"sort"
 	"strconv"
 	"strings"
@@ -562,6 +563,9 @@ func genLoop(seed uint64, caseNo int, rate int) caseOut {
 	case x < 50:
 		torsim.GenStallCase(r, ru, rate)
 		return caseOut{ru.Lines, ru.Viol, ru.Tags}
+	case x < 62:
+		torsim.GenIdleCase(r, ru, rate)
+		return caseOut{ru.Lines, ru.Viol, ru.Tags}
 	}
 	ps := r.PickInt(16384, 32768)
 	n := 2 + r.Intn(4)
@@ -690,6 +694,7 @@ func mix(seed, k uint64) uint64 {
 }
 
 func main() {
+	config.SetIdleRate(torsim.IdleRateForCases)
 	c := vhlib.Init("c10")
 	c.Rep.Rule = "case = one op sequence on a fresh torrent; nontrivial = a channel was closed, a priority withdrawn or a reader blocked"
 	if c.Replay != "" {
